@@ -212,7 +212,7 @@ impl WorkerDriver {
             .into_iter()
             .enumerate()
             .map(|(i, s)| WorkerService {
-                factory_idx: i,
+                factory_idx: i as _,
                 status: WorkerServiceStatus::Unavailable,
                 service: Box::new(SvcAdapter(s, i)) as BoxedServerService,
             })
